@@ -201,6 +201,22 @@ def run_case(cs):
                 _check_dt(cs, "hashdate", hd, now, zone, z, {**ctx, "path": "sub"})
     # ---- the same history flattened under another zone: the dates carried over must still denote the same instants
     if rng.random() < 0.35:
+        want_instant = {}
+        for rec in m["hashes"]:
+            for fmt, dg, a, hd in rec["entries"]:
+                want_instant[(rec["path"], fmt)] = now
+        if rng.random() < 0.6:
+            # a second generation, later, adding other formats: its digests carry *its* hash date
+            now_b = now + rng.randint(3600, 200 * 86400)
+            clock.freeze(now_b)
+            fm_b = [f for f in world.FORMATS if f not in fm][: rng.randint(1, 2)]
+            rb = drive.run("create", [root] + world.fmt_args(fm_b))
+            if rb.exit == 0:
+                ms2, _ = hist.load_history(root, ".")
+                for rec in ms2[-1][2]["hashes"]:
+                    for fmt, dg, a, hd in rec["entries"]:
+                        want_instant.setdefault((rec["path"], fmt), now_b)
+                cs.count("flatten_two_generations")
         zone2 = rng.choice([z2 for z2 in ZONES if z2 != zone])
         clock.set_zone(zone2)
         now2 = now + rng.randint(1, 400 * 86400)
@@ -223,11 +239,12 @@ def run_case(cs):
                             for fmt, dg, a, hd in rec["entries"]:
                                 cs.count("carried_hashdate_checked")
                                 dt = _parse(hd) if hd else None
-                                if dt is None or dt.tzinfo is None or int(dt.timestamp()) != int(now):
+                                wi = want_instant.get((rec["path"], fmt), now)
+                                if dt is None or dt.tzinfo is None or int(dt.timestamp()) != int(wi):
                                     cs.violation(
                                         "aware-date-relabelled",
-                                        {"kind": "carried-date-instant", "attr": "hashdate", "via": "flatten", "same_wall_fields": dt is not None and dt.replace(tzinfo=None, microsecond=0) == _dt.datetime.fromtimestamp(now, z).replace(tzinfo=None, microsecond=0)},
-                                        {**c3, "path": rec["path"], "text": hd, "want_epoch": now},
+                                        {"kind": "carried-date-instant", "attr": "hashdate", "via": "flatten", "same_wall_fields": dt is not None and dt.replace(tzinfo=None, microsecond=0) == _dt.datetime.fromtimestamp(wi, z).replace(tzinfo=None, microsecond=0), "other_generation_instant": dt is not None and dt.tzinfo is not None and int(dt.timestamp()) in (int(now), int(wi)) and int(dt.timestamp()) != int(wi)},
+                                        {**c3, "path": rec["path"], "format": fmt, "text": hd, "want_epoch": wi},
                                     )
         clock.set_zone(zone)
     cs.count("zone:" + zone if zone in ZONES else "zone:other")
